@@ -9,6 +9,8 @@ import Driver.WtoH
 import Driver.NumH
 import Driver.LinH
 import Driver.EnvH
+import Driver.WidenH
+import Driver.Dom2H
 import Driver.CrawlH
 import Driver.RgnH
 import Driver.ArrH
@@ -47,6 +49,8 @@ def dispatch (comp op : String) (args res : List Sexp) : Verdict :=
   | "lin" => handleLin op args res
   | "env" => handleEnv op args res
   | "pset" => handlePSet op args res
+  | "wchain" => handleWChain op args res
+  | "dom2" => handleDom2 op args res
   | "crawl" => handleCrawl op args res
   | "rgn" => handleRgn op args res
   | "arr" => handleArr op args res
